@@ -456,15 +456,16 @@ def run(P, C):
                 alpha_ids.add(W.nodes[y]["decl"]["id"])
     for x in W.walk():
         n_ = W.nodes[x]
-        if n_["k"] == "BinaryOperator" and n_["op"] in (">=", "=="):
-            l = core.poly(W, n_["ch"][0])
-            r = W.strip(n_["ch"][1])
-            if l == want:
-                if W.k(r) == "DeclRefExpr" and n_["op"] == ">=":
+        orr = W.oriented(x, lambda a: core.poly(W, a) == want) if n_["k"] == "BinaryOperator" else None
+        if orr is not None and orr[1] in (">=", "=="):
+            r = orr[2]
+            cop = orr[1]
+            if True:
+                if W.k(r) == "DeclRefExpr" and cop == ">=":
                     uses.append((x, "bound"))
                     nalpha.add(W.nodes[r]["decl"]["id"])
                 elif W.k(r) == "BinaryOperator" and W.nodes[r]["op"] == "-" and W.nodes[W.strip(W.nodes[r]["ch"][1])].get("cv") == 1 and \
-                        W.k(W.strip(W.nodes[r]["ch"][0])) == "DeclRefExpr" and n_["op"] == "==":
+                        W.k(W.strip(W.nodes[r]["ch"][0])) == "DeclRefExpr" and cop == "==":
                     uses.append((x, "last"))
                     nalpha.add(W.nodes[W.strip(W.nodes[r]["ch"][0])]["decl"]["id"])
         if n_["k"] == "ArraySubscriptExpr" and W.k(W.strip(n_["ch"][0])) == "DeclRefExpr" and W.nodes[W.strip(n_["ch"][0])]["decl"]["id"] in alpha_ids \
